@@ -35,7 +35,7 @@ SetLevel == /\ phase = "grow" /\ rec.level = 3 /\ budget > 0
             /\ \E l \in {1, 2, 4, 5} : rec' = [rec EXCEPT !.level = l]
             /\ budget' = budget - 1 /\ UNCHANGED phase
 AddMdc == /\ phase = "grow" /\ Cardinality(rec.mdc) < 2 /\ budget > 0
-          /\ \E k \in {<<"plain">>, <<"quote", "plain">>, <<>>}, v \in {<<>>, <<"plain">>, <<"lf">>, <<"quote", "bslash">>, <<"b3", "ctl">>} :
+          /\ \E k \in {<<"plain">>, <<"quote", "plain">>, <<>>, <<"plain", "dot", "plain">>, <<"plain", "us", "plain">>, <<"b3", "dot">>}, v \in {<<>>, <<"plain">>, <<"lf">>, <<"quote", "bslash">>, <<"b3", "ctl">>} :
                /\ \A p \in rec.mdc : p[1] # k
                /\ rec' = [rec EXCEPT !.mdc = @ \cup {<<k, v>>}]
           /\ budget' = budget - 1 /\ UNCHANGED phase
